@@ -120,6 +120,10 @@ func render(raw json.RawMessage, form int) []byte {
 		var s string
 		json.Unmarshal(m["f"], &s)
 		return []byte(s)
+	case "big":
+		var s string
+		json.Unmarshal(m["s"], &s)
+		return []byte(s)
 	case "str":
 		return bytes.TrimSpace(m["s"])
 	case "arr":
@@ -163,6 +167,18 @@ func render(raw json.RawMessage, form int) []byte {
 		return b.Bytes()
 	}
 	return []byte("null")
+}
+
+// canonNum: JSON text with object keys sorted and numbers kept digit for digit
+func canonNum(b []byte) string {
+	dec := json.NewDecoder(bytes.NewReader(b))
+	dec.UseNumber()
+	var v interface{}
+	if err := dec.Decode(&v); err != nil {
+		return "invalid: " + string(b)
+	}
+	out, _ := json.Marshal(v)
+	return string(out)
 }
 
 func readRows(path string, each func([]byte) error) error {
@@ -255,6 +271,11 @@ func Main(args []string) int {
 			}
 			if !run.Same(pred, got, nil) {
 				viol("filter", r.T, T{}, b, "FilterJson returned %s, expected %s", string(out), run.Canon(pred))
+			} else if bytes.Contains(r.V, []byte(`"big"`)) {
+				// integers beyond 2^53: every digit counts
+				if a, e := canonNum(out), canonNum(render(r.Fv, 0)); a != e {
+					viol("filter", r.T, T{}, b, "FilterJson returned %s, expected %s", a, e)
+				}
 			}
 			out2, fatal2, ferr2 := ty.FilterJson(out, lookup)
 			if fatal2 || (ferr2 != nil && !r.Ferr) || !bytes.Equal(bytes.TrimSpace(out2), bytes.TrimSpace(out)) {
